@@ -84,24 +84,55 @@ def rebind_functions(facts, pin):
     new = [n for n in cur if n not in info and not (cur[n].get("impl_trait") or cur[n].get("in_trait"))]
     if not missing or not new:
         return facts, []
+    # callers of every current function (closures count for their root function)
+    cur_callers = {}
+    for crate, f in facts.items():
+        for b in f["bodies"]:
+            me = strip_generics(b.get("root") or b["path"]) if b["kind"] == "Closure" else strip_generics(b["path"])
+            for blk in b["blocks"]:
+                t = blk["term"]
+                if t.get("k") == "call":
+                    fu = t.get("func") or {}
+                    c = fu.get("resolved") if fu.get("resolved_local") else (fu.get("fn") if fu.get("fn_local") else None)
+                    if c:
+                        cur_callers.setdefault(strip_generics(c), set()).add(me)
+    # similarity of a pinned function m and a new function n of the same impl / module with the same
+    # signature: what it calls, or who calls it (a rename usually changes one of the two pictures only -
+    # when its callees were renamed too, the callers still tell)
+    score = {}
+    for m in missing:
+        parent = m.rsplit("::", 1)[0]
+        for n in new:
+            if n.rsplit("::", 1)[0] != parent or fn_signature(cur[n]) != info[m]["sig"]:
+                continue
+            s_callees = _jaccard(info[m]["callees"], fn_fingerprint(cur[n])) if (info[m]["callees"] or fn_fingerprint(cur[n])) else 0.0
+            pc = set(info[m].get("callers") or ())
+            cc = cur_callers.get(n, set())
+            s_callers = (len(pc & cc) / len(pc | cc)) if (pc or cc) else 0.0
+            # who calls it is the stronger evidence (a helper extracted from a renamed function has the old
+            # callees but not the old callers)
+            score[(m, n)] = s_callers if s_callers >= 0.5 else 0.8 * s_callees
     pairs = {}
     taken = set()
-    for m in sorted(missing):
-        parent = m.rsplit("::", 1)[0]
-        cands = []
-        for n in new:
-            if n in taken or n.rsplit("::", 1)[0] != parent:
+    bound = set()
+    while True:
+        best = None
+        for (m, n), sc in score.items():
+            if m in bound or n in taken or sc < 0.5:
                 continue
-            if fn_signature(cur[n]) != info[m]["sig"]:
+            # the best partner of each other, by a margin, among what is still free
+            rival_n = max([s2 for (m2, n2), s2 in score.items() if m2 == m and n2 != n and n2 not in taken] or [0.0])
+            rival_m = max([s2 for (m2, n2), s2 in score.items() if n2 == n and m2 != m and m2 not in bound] or [0.0])
+            if sc - max(rival_n, rival_m) < 0.1:
                 continue
-            cands.append((_jaccard(info[m]["callees"], fn_fingerprint(cur[n])), n))
-        cands.sort(reverse=True)
-        if not cands or cands[0][0] < 0.5:
-            continue
-        if len(cands) > 1 and cands[1][0] >= cands[0][0] - 0.1:
-            continue  # ambiguous: leave both unbound (rules fail closed)
-        pairs[cands[0][1]] = m
-        taken.add(cands[0][1])
+            if best is None or sc > best[0]:
+                best = (sc, m, n)
+        if best is None:
+            break
+        _sc, m, n = best
+        pairs[n] = m
+        taken.add(n)
+        bound.add(m)
     # second pass: a function that also moved (free fn -> associated fn, another impl block / module of
     # the same crate): same signature and a near-identical callee fingerprint, unique in the crate
     moved = {}
@@ -110,8 +141,8 @@ def rebind_functions(facts, pin):
             continue
         cands = []
         for n in new:
-            if n in taken or n.split("::")[0] != m.split("::")[0]:
-                continue
+            if n in taken or n.split("::")[0] != m.split("::")[0] or n.rsplit("::", 1)[0] == m.rsplit("::", 1)[0]:
+                continue  # (same impl / module: that was the first pass's decision)
             if fn_signature(cur[n]) != info[m]["sig"] or not info[m]["callees"]:
                 continue
             cands.append((_jaccard(info[m]["callees"], fn_fingerprint(cur[n])), n))
